@@ -63,6 +63,14 @@ def match_finding(findings, v):
             if _get(v.get("event") or {}, path) != want:
                 ok = False
                 break
+        for path in (f.get("event_any_negative") or []):      # e.g. a coordinate of -1 somewhere in the named array
+            def neg(x):
+                if isinstance(x, list):
+                    return any(neg(y) for y in x)
+                return isinstance(x, (int, float)) and not isinstance(x, bool) and x < 0
+            if not neg(_get(v.get("event") or {}, path)):
+                ok = False
+                break
         if ok:
             return f
     return None
